@@ -19,3 +19,15 @@ Theorem C06_required : C06_required_stmt.                Proof. exact Proofs.C06
     those sections. *)
 From CP Require Import Spec.Render Proofs.Render.
 Theorem render_file : render_file_stmt.       Proof. exact Proofs.Render.render_file. Qed.
+
+(** The path entry point at byte level: the UTF-8 codec is a bijection between valid byte strings and texts of
+    Unicode scalar values; utf-8-sig drops exactly one leading mark; a file with or without the mark and with LF or
+    CRLF line endings parses as the LF text; undecodable bytes are a ValueError. *)
+From CP Require Import Spec.Utf8Spec Proofs.Utf8.
+Theorem utf8_roundtrip : utf8_roundtrip_stmt.       Proof. exact Proofs.Utf8.utf8_roundtrip. Qed.
+Theorem utf8_canonical : utf8_canonical_stmt.       Proof. exact Proofs.Utf8.utf8_canonical. Qed.
+Theorem utf8_bytes : utf8_bytes_stmt.               Proof. exact Proofs.Utf8.utf8_bytes. Qed.
+Theorem utf8_sig_bom : utf8_sig_bom_stmt.           Proof. exact Proofs.Utf8.utf8_sig_bom. Qed.
+Theorem utf8_sig_nobom : utf8_sig_nobom_stmt.       Proof. exact Proofs.Utf8.utf8_sig_nobom. Qed.
+Theorem C06_bom_bytes : C06_bom_bytes_stmt.         Proof. exact Proofs.Utf8.C06_bom_bytes. Qed.
+Theorem utf8_error_kind : utf8_error_kind_stmt.     Proof. exact Proofs.Utf8.utf8_error_kind. Qed.
